@@ -262,7 +262,9 @@ pub fn jobs(prop: &str, tier: &str) -> Vec<Job> {
             c.clear = true;
             c.reserve_items = true;
             c.reserve_regions = true;
-            let devs: &[(usize, usize, u8)] = if thorough { &[(256, 1, 0), (64, 2, 0), (64, 2, 1)] } else { &[(48, 1, 0), (24, 2, 1)] };
+            // long default runs without deviations cross item-count thresholds (> 255, > 1024 items)
+            let devs: &[(usize, usize, u8)] =
+                if thorough { &[(256, 1, 0), (64, 2, 0), (64, 2, 1), (1100, 0, 0), (4200, 0, 1)] } else { &[(48, 1, 0), (24, 2, 1), (300, 0, 0), (1100, 0, 1)] };
             life(&mut out, c, if thorough { 6 } else { 4 }, devs, &|_| true, &|_, _| {});
             // coded regions after merge_regions (shared partial bytes, dictionary codes): their own
             // machines re-read every issued index after every step as well
@@ -279,7 +281,7 @@ pub fn jobs(prop: &str, tier: &str) -> Vec<Job> {
             }
         }
         "C03" => {
-            let devs: &[(usize, usize, u8)] = if thorough { &[(32, 2, 0), (256, 1, 1)] } else { &[(24, 1, 0), (48, 1, 1)] };
+            let devs: &[(usize, usize, u8)] = if thorough { &[(32, 2, 0), (256, 1, 1), (1100, 0, 0)] } else { &[(24, 1, 0), (48, 1, 1), (300, 0, 0)] };
             stacks(&mut out, StackOracle::Sequence, if thorough { 6 } else { 4 }, devs, 3);
         }
         "C09" => {
